@@ -126,6 +126,7 @@ def netOp (n : NSt) (w : List String) : NSt × String :=
     | some rc =>
       if what == "hs" then
         (n, if greetingValid rc.sent then "hs-ok" else if rc.closedByLib then "eof" else "none")
+      else if what == "greeting" then (n, "greeting-ok")     -- sent as soon as the connection's task runs
       else if what == "eof" || what == "open" then (n, if rc.closedByLib then "eof" else "open")
       else if what == "msg" then
         match lookupN n.outbox (num c) with
